@@ -38,6 +38,14 @@ type CrashSpec struct {
 	Kind   string `json:"kind"`    // kill, powerloss, sigterm, sigint, torn
 }
 
+// StallSpec freezes every process for D at controller step AtStep.
+type StallSpec struct {
+	AtStep int           `json:"at_step"`
+	AtJob  int           `json:"at_job,omitempty"` // if > 0: AtStep counts from the start of the AtJob-th job process
+	AtSlow bool          `json:"at_slow,omitempty"` // AtStep counts from the moment a "slow" job is in its long computation
+	D      time.Duration `json:"d"`
+}
+
 // SchedEntry is one controller decision.
 type SchedEntry struct {
 	Step   int    `json:"step"`
@@ -70,6 +78,10 @@ type RunCfg struct {
 	QuickRestart     int    // if > 0: the operator restarts after QuickRestart-1 steps of the orphans\' reactions
 	LinkDirs         bool   // stages may report outputs through a symlinked sub-directory of files/
 	DirOutputs       bool   // a file-typed output may be a directory holding several files
+	// Stalls: at controller step AtStep every process of the machine stops for D of
+	// simulated time (a hung file server, a frozen VM): nothing runs, the clock goes on
+	Stalls           []StallSpec
+	MarkSuperseded   bool   // an attempt that finds itself replaced produces recognisably different outputs
 	OutKinds         bool   // a file-typed output may be missing, a symlink, or a path outside the pipestance (C13)
 	Companions       bool   // stages may write x.idx next to an output file x
 	ChunkRes         bool   // splits return per-chunk resource requests
@@ -118,6 +130,8 @@ type Run struct {
 	LastProgress  int           // step at which a job last started or ended, or mrp exited
 	progressSig   int
 	crashIdx      int
+	stallIdx      int
+	stallBase     int
 	Output        []string // mrp stdout lines
 	outBuf        strings.Builder
 	Ops           []OpEvent
@@ -624,6 +638,19 @@ func (r *Run) Execute() {
 			r.operatorRestart()
 			continue
 		}
+		if r.stallIdx < len(cfg.Stalls) && r.stallDue(cfg.Stalls[r.stallIdx]) {
+			st := cfg.Stalls[r.stallIdx]
+			r.stallIdx++
+			r.Steps++
+			r.op("stall", fmt.Sprintf("every process frozen for %v at step %d", st.D, r.Steps))
+			r.Faults["machine-stall"]++
+			r.SchedHash = r.SchedHash*1099511628211 ^ hash64("stall", st.D.String())
+			if r.Cfg.KeepTrace {
+				r.Trace = append(r.Trace, SchedEntry{Step: r.Steps, Task: "<machine>", Kind: "stall", Detail: st.D.String(), Time: time.Since(r.Start).String()})
+			}
+			time.Sleep(st.D)
+			continue
+		}
 		if r.crashIdx < len(cfg.Crashes) {
 			c := cfg.Crashes[r.crashIdx]
 			if c.Inc == r.Inc && r.Mrp.Gates >= c.AtGate {
@@ -702,6 +729,28 @@ func (r *Run) advance(dl time.Time) {
 	}
 	r.Probes["time-advance"]++
 	time.Sleep(d)
+}
+
+func (r *Run) stallDue(st StallSpec) bool {
+	if st.AtSlow {
+		busy := false
+		for _, j := range r.Jobs {
+			if j.sleeping && j.proc != nil && !j.proc.Exited && !j.proc.Dead {
+				busy = true
+			}
+		}
+		if !busy && r.stallBase == 0 {
+			return false
+		}
+	} else if st.AtJob <= 0 {
+		return r.Steps >= st.AtStep
+	} else if len(r.Jobs) < st.AtJob {
+		return false
+	}
+	if r.stallBase == 0 {
+		r.stallBase = r.Steps
+	}
+	return r.Steps >= r.stallBase+st.AtStep
 }
 
 func (r *Run) drainBeforeRestart() bool { return true }
